@@ -295,7 +295,7 @@ Family02 ==
         IPRule(114, "block", "domain", "i6", FALSE, <<>>),
         IPRule(115, "allow", "domain", "i6", TRUE, <<>>),
         IPRule(116, "block", "domain", "i1", TRUE, <<>>),
-        IPRule(117, "block", "domain", "i1", FALSE, <<CCOM>>)                        \* $denyallow never matches an address,
+        IPRule(117, "block", "domain", "i1", FALSE, <<CCOM>>),                       \* $denyallow never matches an address
         IPRule(118, "allow", "domain", "i2", FALSE, <<>>)                            \* an allowed hint in front of a blocked one
     }
 Placed02 == {Placed(r, pl) : r \in Family02, pl \in {"allow", "block", "custom"}}
